@@ -89,9 +89,17 @@ def _cmath_or_math(name):
     return f
 
 
+def _py_pow(e, a, b):
+    # floor() / ceil() of a huge float is a huge Python int, and int ** int is exact: 10**300 ** 10**300 never finishes (in the emitted code as little as here);
+    # such a program is not comparable - refused before either side is evaluated
+    if isinstance(a, int) and isinstance(b, int) and not isinstance(a, bool) and b > 0 and abs(a) > 1 and a.bit_length() * b > 200000:
+        raise Unsupported("huge integer power")
+    return operator.pow(a, b)
+
+
 PY_OPS = dict(
     absolute=_py(abs), negative=_py(operator.neg), positive=_py(operator.pos), add=_py(operator.add), subtract=_py(operator.sub), multiply=_py(operator.mul),
-    divide=_py(operator.truediv), floor_divide=_py(operator.floordiv), remainder=_py(operator.mod), pow=_py(operator.pow),
+    divide=_py(operator.truediv), floor_divide=_py(operator.floordiv), remainder=_py(operator.mod), pow=_py_pow,
     logical_and=_py(lambda a, b: a and b), logical_or=_py(lambda a, b: a or b), logical_not=_py(operator.not_),
     maximum=_py(max), minimum=_py(min), atan2=_py(math.atan2), copysign=_py(math.copysign), sign=_py_sign,
     real=_py(lambda z: z.real), imag=_py(lambda z: z.imag), conjugate=_py(lambda z: z.conjugate()), complex=_py(complex),
